@@ -3161,12 +3161,12 @@ class KmipEngine(object):
                 "No data to be MACed"
             )
 
-        if managed_object.state != enums.State.ACTIVE:
+        if getattr(managed_object, 'state', None) != enums.State.ACTIVE:
             raise exceptions.PermissionDenied(
                 "Object is not in a state that can be used for MACing."
             )
 
-        masks = managed_object.cryptographic_usage_masks
+        masks = getattr(managed_object, 'cryptographic_usage_masks', [])
         if enums.CryptographicUsageMask.MAC_GENERATE not in masks:
             raise exceptions.PermissionDenied(
                 "MAC Generate must be set in the object's cryptographic "
